@@ -48,6 +48,10 @@ PreBin(op, i, j) == LET p == Prefixes[i] q == Prefixes[j] IN
   ev' = IF SameBase(p, q)
         THEN Ev(op, i, j, 0, "object", <<>>, IF op = "pmul" THEN PMul(p, q) ELSE PDiv(p, q), Id)
         ELSE Ev(op, i, j, 0, "value", <<>>, p, q)
+\* a product / quotient of prefixes of DIFFERENT bases raised to a power: prescribed as a value, (p op q)^n
+\* (the library carries such a prefix with a non-integral exponent of one of the two bases)
+PreBinPow(op, i, j, n) == LET p == Prefixes[i] q == Prefixes[j] IN
+  ~SameBase(p, q) /\ ev' = Ev(IF op = "pmul" THEN "pmulpow" ELSE "pdivpow", i, j, n, "value", <<>>, p, q)
 PrePow(i, n) == ev' = Ev("ppow", i, 0, n, "object", <<>>, PPow(Prefixes[i], n), Id)
 PreRoot(i, n) == n # 0 /\ LET p == Prefixes[i] IN
   ev' = IF Divides(n, p[2]) THEN Ev("proot", i, 0, n, "object", <<>>, PNorm(<<p[1], Quot(p[2], n)>>), Id)
